@@ -2,7 +2,7 @@
     [d] in [eval n d ast env] is the number of lisp.EVAL frames on the Go stack.  Each
     theorem is one iteration of EVAL's loop: the form in tail position is evaluated at the
     SAME depth d, sub-expressions at depth S d.  Only `exact`; proofs in EvalProofs.v. *)
-From Lisp Require Import Base Value Core Binder Env Eval Interp EvalProofs Run.
+From Lisp Require Import Base Value Core Binder Env Eval Interp EvalProofs TailProofs Run.
 From Lisp.Gen Require Import Examples.
 
 Theorem C08_if_branch_same_depth : forall n d c a b cur env st,
@@ -39,6 +39,32 @@ Theorem C08_macro_expansion_same_depth : forall n d head p rest cur env st mac,
        (fun ast' st' => eval_step (eval n) (eval n) (call_builtin n (eval n)) n d ast' env st').
 Proof. exact eval_macro_call. Qed.
 
+(** the last form of a let body runs at the depth of the let *)
+Theorem C08_let_body_same_depth : forall n d a1 body cur env st,
+  macro_of st (VList (sy "let" :: a1 :: body) cur) env = None ->
+  eval (S n) d (VList (sy "let" :: a1 :: body) cur) env st =
+  prop (new_env (Some env) st) (fun let_env st1 =>
+  prop (lift (get_slice a1) st1) (fun arr st2 =>
+  if Nat.odd (length arr) then (Err (lisp_goerr (s_ "let: odd elements on binding vector") (get_position a1)), st2) else
+  prop (let_binds (eval n) d let_env a1 arr st2) (fun _ st3 =>
+  prop (do_forms (eval n) d (sy "let" :: a1 :: body) 2 true let_env st3) (fun last st4 =>
+  eval n d last let_env st4)))).
+Proof. exact eval_let. Qed.
+
+(** THE GENERAL STATEMENT.  [tail_step] = one hand-over of a sub-form to the same loop (selected
+    branch of if, last form of do / let body / closure body, expansion of a macro call such as
+    cond, and, or); [tail_steps] = any number of them, nested in any combination, spread over any
+    number of functions (each closure call is one ts_call).  Along them the evaluation of the
+    original form IS the evaluation of the form reached, at the same depth d: the number of
+    lisp.EVAL frames on the host stack is the same at every iteration of such a loop. *)
+Theorem C08_tail_step_same_depth : forall n d x env st n' y env' st',
+  tail_step n d x env st n' y env' st' -> eval (S n) d x env st = eval n' d y env' st'.
+Proof. exact tail_step_same_depth. Qed.
+
+Theorem C08_tail_loops_use_no_stack : forall d n x env st n' y env' st',
+  tail_steps d n x env st n' y env' st' -> eval n d x env st = eval n' d y env' st'.
+Proof. exact tail_steps_same_depth. Qed.
+
 (** Computed instances on the generated headers (tests, not the unbounded claim): the depth
     observed at the base case is the same for 0, 10 and 200 iterations, through if, cond,
     and/or, let+do, and mutual recursion; a non-tail call does grow. *)
@@ -53,3 +79,6 @@ Print Assumptions C08_if_branch_same_depth.
 Print Assumptions C08_do_last_same_depth.
 Print Assumptions C08_closure_body_same_depth.
 Print Assumptions C08_macro_expansion_same_depth.
+Print Assumptions C08_let_body_same_depth.
+Print Assumptions C08_tail_step_same_depth.
+Print Assumptions C08_tail_loops_use_no_stack.
